@@ -69,6 +69,7 @@ pub fn apply_change_metric(
         m.capacity_mixed = false;
     }
     e.prev_forest.remove(&index);
+    e.writers.forget(index);
     let m = model.ix[op_ix].clone();
     // ---- raw view of the index
     let own = rawdb::dump_of_index(&post, index);
